@@ -105,11 +105,25 @@ class Lab:
             self.close()
             raise
         # observers
+        self.inflight = None  # the message whose handler is executing right now (instrumented through the command registry dict)
+
+        def _wrap(coro):
+            async def handler(msg):
+                lab.inflight = msg
+                try:
+                    return await coro(msg)
+                finally:
+                    lab.inflight = None
+
+            return handler
+
+        for _name, _coro in list(self.RE._command_registry.items()):
+            self.RE._command_registry[_name] = _wrap(_coro)
         self.docs, self.msgs, self.trans = [], [], []
         self.RE.subscribe(lambda n, d: self.docs.append((n, d)))
         self.RE.msg_hook = lambda m: self.msgs.append(m)
         self.trans_meta = []
-        self.RE.state_hook = lambda new, old: (self.trans.append((str(old), str(new))), self.trans_meta.append((len(self.msgs), self.steps, len(self.docs), bool(self.RE._rewindable_flag))))
+        self.RE.state_hook = lambda new, old: (self.trans.append((str(old), str(new))), self.trans_meta.append((len(self.msgs), self.steps, len(self.docs), bool(self.RE._rewindable_flag), self.inflight is not None)))
 
     # ------------------------------------------------------------------ pumping
     def pump_once(self):
